@@ -15,7 +15,7 @@ RUNS = {'C16': 3000, 'C14': 2000, 'C15': 2000, 'C10': 800, 'C13': 600, 'C09': 12
 CONFIGS = [
     {'workers': '1', 'hashseed': '0', 'env': {}},
     {'workers': '16', 'hashseed': '12345', 'env': {}},
-    {'workers': '5', 'hashseed': '1', 'env': {'VERIF_FORCE_FORK': '1'}},
+    {'workers': '5', 'hashseed': '1', 'env': {'VERIF_FORCE_FORK': '1', 'VERIF_ROUNDTRIP': '1'}},
 ]
 
 
